@@ -1,0 +1,33 @@
+//go:build verif
+
+// Contracts for the CCB requester (property C20). Comment-only; read by /verif/cmd/cedarvc.
+package ccb
+
+//@ pkg github.com/bbockelm/cedar/ccb
+
+// the value of a string attribute of a received control ad (ClassAd contents are outside the model)
+//@ func AdString (ad, name) (result)
+//@   trusted
+//@   pure
+//@   deterministic
+
+//@ func GenerateConnectID () (result, err)
+//@   props C20
+//@   assert before call crypto/rand.Read #1 twenty_random_bytes: [C20] len(arg0) == 20 && fresh(arg0)
+
+//@ func acceptReversed (ctx, ln, connectID) (result, err)
+//@   props C20
+//@   assert before call net.Conn.Close #2 wrong_id_closed: [C20] got != connectID
+//@   ensures only_the_matching_hello: [C20] err == nil ==> result != nil && result == conn && got == connectID && got == AdString(helloAd, "ClaimId")
+//@   ensures never_both: [C20] err != nil ==> result == nil
+
+//@ func proxyRequestOnStream (ctx, brokerConn, brokerStream, ccbid, route, connectID, returnAddr, name) (result, err)
+//@   props C20
+//@   ensures only_after_matching_hello: [C20] err == nil ==> result == brokerConn && got == connectID && got == AdString(helloAd, "ClaimId")
+//@   ensures never_both: [C20] err != nil ==> result == nil
+
+//@ func dialOne (ctx, contact, opts) (result, err)
+//@   props C20
+//@   assert after call GenerateConnectID #1 fresh_id_per_request: [C20] true
+//@   assert before call dialStandard #1 uses_that_id: [C20] arg2 == connectID
+//@   assert before call dialProxy #1 uses_that_id: [C20] arg2 == connectID
